@@ -2,7 +2,7 @@
 import itertools
 import random
 
-from pycaption import (CaptionSet, CaptionList, Caption, CaptionNode, DFXPReader, DFXPWriter, MicroDVDReader, MicroDVDWriter,
+from pycaption import (CaptionConverter, CaptionSet, CaptionList, Caption, CaptionNode, DFXPReader, DFXPWriter, MicroDVDReader, MicroDVDWriter,
                        SAMIReader, SAMIWriter, SRTReader, SRTWriter, WebVTTReader, WebVTTWriter)
 
 T, BR = CaptionNode.create_text, CaptionNode.create_break
@@ -86,13 +86,30 @@ def run_chain(cs, chain):
     """one writer and one reader object per format for the whole run (what a conversion step returns depends on
     its input only, also when the objects have converted other documents before)"""
     cur = cs
+    _STEPS[0] += 1
     for f in chain:
         W, R = FORMATS[f]
         if f not in _OBJECTS:
             _OBJECTS[f] = (W(), R())
         w, r = _OBJECTS[f]
-        cur = r.read(w.write(cur))
+        if _STEPS[0] % 3 == 0:
+            # the public converter object (one for the whole run) does the same as calling writer and reader directly
+            doc = _CONVERTER.read(cur, _PassThrough()).write(w)
+            cur = _CONVERTER.read(doc, r).captions
+        else:
+            cur = r.read(w.write(cur))
     return cur
+
+
+class _PassThrough:
+    """a 'reader' that hands an existing caption set to the converter"""
+
+    def read(self, content):
+        return content
+
+
+_STEPS = [0]
+_CONVERTER = CaptionConverter()
 
 
 def compare(orig, got, chain, single_lang_only):
